@@ -6,6 +6,10 @@ def indent(level):
 
 
 def ensure_select_keyword_order(select, operation):
+    if not hasattr(select, 'from_table'):
+        # parenthesised UNION / INTERSECT / EXCEPT: there is no clause to attach to
+        raise ParsingException(f"{operation} can't be applied to {type(select).__name__.upper()}")
+
     op_to_attr = {
         'FROM': select.from_table,
         'WHERE': select.where,
